@@ -81,6 +81,23 @@ def run_multipoint(col):
     bad = [i for i in range(d) if not is_zero(sum((P(rd[d * n_ + i, 0]) for n_ in range(ra.mesh.npoints)), ZERO))]
     col.add("C01.O7", "MultiPointConstraint centre point among the points equilibrium", "constraint forces are self-equilibrated also when the centre point is one of the coupled points", not bad,
             "%s: unbalanced components %s" % (method_where(cls, "_vector"), bad))
+    # other spellings of the same point set: ids counted from the end (the centre as -1, as in the documented PointLoad(points=[-1]) idiom), a
+    # (indices only: the documented type of `points`); same obligations, and the same force / stiffness as the plain spelling
+    npts_ = ra.mesh.npoints
+    item0 = it.call(cls, [fc], dict(points=[0, 1], centerpoint=npts_ - 1, skip=(False, False, False), multiplier=k))
+    r0 = micro.dense(it.call(it.getattr(it.getattr(item0, "assemble"), "vector"), [fc], {}))
+    K0 = micro.dense(it.call(it.getattr(it.getattr(item0, "assemble"), "matrix"), [fc], {}))
+    for what, pts_, ctr in (("negative ids", [0, 1, -1], npts_ - 1), ("negative ids, negative centre", [0, 1 - npts_, -1], -1)):
+        def chk_sp(pts_=pts_, ctr=ctr):
+            item = it.call(cls, [fc], dict(points=pts_, centerpoint=ctr, skip=(False, False, False), multiplier=k))
+            r_ = micro.dense(it.call(it.getattr(it.getattr(item, "assemble"), "vector"), [fc], {}))
+            K_ = micro.dense(it.call(it.getattr(it.getattr(item, "assemble"), "matrix"), [fc], {}))
+            badr = [i for i in range(r0.shape[0]) if not is_zero(P(r_[i, 0]) - P(r0[i, 0]))]
+            badK = [(i, j) for i in range(K0.shape[0]) for j in range(K0.shape[1]) if not is_zero(P(K_[i, j]) - P(K0[i, j]))]
+            return not badr and not badK, "%s: force rows %s, stiffness entries %s differ from the item given as points=[0, 1], centerpoint=%d" % (
+                method_where(cls, "__init__"), badr[:4], badK[:4], npts_ - 1)
+        col.check("C01.O7", "MultiPointConstraint centre point among the points (%s)" % what,
+                  "the same set of points, however its ids are spelled (counted from the start or from the end), gives the same constraint force and its derivative", chk_sp)
     cls = it.get("felupe.mechanics._multipoint:MultiPointContact")
     # contact with the centre point listed among the points, all other gaps closed: forces still balance
     def oracle_c(a, b, op):
@@ -214,8 +231,17 @@ def run_multiplier(col):
             self.field = None
             a = type("A", (), {})()
             a.multiplier = mult
-            a.vector = lambda field=None, parallel=False, **kw: npmodel.AbstractSparse(symarray("r" + tag, (n, 1)))
-            a.matrix = lambda field=None, parallel=False, **kw: npmodel.AbstractSparse(symarray("K" + tag, (n, n)))
+            # like the library's items: the assembled vector / matrix is stored on the item's results and that very object is returned
+            def vec(field=None, parallel=False, **kw):
+                self.results.force = npmodel.AbstractSparse(symarray("r" + tag, (n, 1)))
+                return self.results.force
+
+            def mat(field=None, parallel=False, **kw):
+                self.results.stiffness = npmodel.AbstractSparse(symarray("K" + tag, (n, n)))
+                return self.results.stiffness
+
+            a.vector = vec
+            a.matrix = mat
             self.assemble = a
 
     fc, unknowns, (ra, rb), d, tdim = _setup(it, "Field2")
@@ -237,6 +263,13 @@ def run_multiplier(col):
     col.add("C01.O8", "tools._newton.fun_items", "vector sum: items without multiplier enter with factor 1, others multiplied by their multiplier (a zero multiplier switches the item off)", okf,
             method_where(it.get("felupe.tools._newton:fun_items").cls, "x") if False else "tools/_newton.py fun_items")
     col.add("C01.O8", "tools._newton.jac_items", "matrix sum uses the same multiplier as the vector sum (also when it is zero)", okK, "tools/_newton.py jac_items")
+    # what the items themselves report afterwards (item.results.force is what CharacteristicCurve(items=...) sums, reaction-force plots read
+    # it): the contribution that entered the global sum, i.e. including the item's multiplier
+    fb = micro.dense(items[1].results.force).reshape(-1)
+    fcz = micro.dense(items[2].results.force).reshape(-1)
+    okr = all(is_zero(P(fb[I]) - m1 * rb_[I, 0]) for I in range(n)) and all(is_zero(P(v)) for v in fcz)
+    col.add("C01.O8", "item.results.force after fun_items", "the force an item reports after the global residual was evaluated is its contribution to that residual (multiplier applied)", okr,
+            "tools/_newton.py fun_items: item.results.force is %s, its contribution to the residual is %s" % (ring.fmt(P(fb[0]), 3), ring.fmt(m1 * rb_[0, 0], 3)))
     finish_info(col, it)
 
 
